@@ -43,15 +43,26 @@ class LiquidationMonitor:
 
     def match_end(self, c, kind, exchange, symbol, candle):
         self.matched = getattr(self, 'matched', {})
-        self.matched[symbol] = float(candle[0]) if kind == 'step' else float(candle[0, 0])
+        t0 = float(candle[0]) if kind == 'step' else float(candle[0, 0])
+        n = 1 if kind == 'step' else len(candle)
+        self.matched[symbol] = (t0, t0 + (n - 1) * 60_000)
 
-    def own_range(self, symbol, ts):
-        i = int(round((ts - self.t0[symbol]) / 60_000))
-        n = self.chunk_len.get(symbol, 1)
-        rows = self.norm[symbol][i:i + n]
+    def own_range(self, symbol, opened_at):
+        """range of the minute (step) / of the chunk's minutes the position has lived through (fast),
+        computed from the harness copy of the input"""
+        span = getattr(self, 'matched', {}).get(symbol)
+        if span is None:
+            return None
+        i0 = int(round((span[0] - self.t0[symbol]) / 60_000))
+        i1 = int(round((span[1] - self.t0[symbol]) / 60_000))
+        i = i0
+        if opened_at is not None:
+            j = int(round((opened_at - 60_000 - self.t0[symbol]) / 60_000))
+            i = min(max(i0, j), i1)
+        rows = self.norm[symbol][i:i1 + 1]
         if len(rows) == 0:
             return None
-        return float(rows[:, 4].min()), float(rows[:, 3].max()), i
+        return float(rows[:, 4].min()), float(rows[:, 3].max()), i0
 
     def liq_begin(self, c, exchange, symbol, candle):
         from jesse.store import store
@@ -59,16 +70,17 @@ class LiquidationMonitor:
         self.pre = None
         if p is None:
             return
-        rng = self.own_range(symbol, float(candle[0]))
+        rng = self.own_range(symbol, p.opened_at if float(p.qty) != 0 else None)
         if rng is None:
             return
         lo, hi, i = rng
         reg = c.scratch['registry']
         ex = store.exchanges.storage[exchange]
         # "still open AFTER the resting orders of the minute (chunk) have been matched"
-        if float(p.qty) != 0 and self.isolated and getattr(self, 'matched', {}).get(symbol) != float(candle[0]):
+        span = getattr(self, 'matched', {}).get(symbol)
+        if float(p.qty) != 0 and self.isolated and not (span is not None and span[0] <= float(candle[0]) <= span[1]):
             self.v(c, 'check-before-matching', f"C09|liquidation-checked-before-the-minutes-orders-were-matched|fast={int(self.spec['fast'])}",
-                   {'candle_ts': float(candle[0]), 'last_matched': getattr(self, 'matched', {}).get(symbol)})
+                   {'candle_ts': float(candle[0]), 'last_matched': span})
         q0 = float(p.qty)
         e0 = None if p.entry_price is None else float(p.entry_price)
         is_open = q0 != 0
